@@ -71,6 +71,38 @@ class Result:
         return sum(1 for o in self.obligations if o["rule"] == rule)
 
 
+_MEMO = {}
+
+
+def memoised(fn):
+    """Rule functions  fn(prog, res, ...)  whose verdict depends on the program only: when several property
+    modules run in one process (tools/matrix.py) the analysis is carried out once per program and its
+    obligations / findings are replayed into each Result."""
+    import functools
+
+    @functools.wraps(fn)
+    def wrapper(prog, res, *a, **kw):
+        from .build import AnalysisBroken
+        k = (id(prog), fn.__module__, fn.__name__, repr(a), repr(sorted(kw.items())))
+        if k not in _MEMO:
+            tmp = Result(res.pid)
+            exc = ret = None
+            try:
+                ret = fn(prog, tmp, *a, **kw)
+            except AnalysisBroken as e:
+                exc = e
+            _MEMO[k] = (tmp, ret, exc, prog)    # prog kept alive: id() stays unique
+        tmp, ret, exc, _ = _MEMO[k]
+        res.obligations += [dict(o) for o in tmp.obligations]
+        res.findings += list(tmp.findings)
+        res.functions |= tmp.functions
+        res.deferred_broken += list(tmp.deferred_broken)
+        if exc is not None:
+            raise exc
+        return ret
+    return wrapper
+
+
 def load_known():
     p = os.path.join(VERIF, "known_findings.json")
     if not os.path.exists(p):
